@@ -513,6 +513,9 @@ class CFG(object):
         return self._cd
 
     def transitive_control_deps(self, block):
+        """control dependences of `block` within the current loop iteration: dependences that only exist
+        through a back edge (the branch lies inside a loop whose header is the dependent block) are
+        skipped, otherwise a condition and its negation from different iterations would be conjoined"""
         cd = self.control_deps()
         res = set()
         work = [block]
@@ -523,6 +526,10 @@ class CFG(object):
                 continue
             seen.add(b)
             for (a, ix) in cd.get(b, ()):
+                if a != b and self.block_dominates(b, a):
+                    continue  # cross-iteration dependence
+                if a == b:
+                    continue
                 if (a, ix) not in res:
                     res.add((a, ix))
                     work.append(a)
@@ -534,7 +541,8 @@ class CFG(object):
         p = self.pos_of(node)
         if p is None:
             return []
-        deps = self.transitive_control_deps(p[0]) if transitive else self.control_deps().get(p[0], set())
+        deps = self.transitive_control_deps(p[0]) if transitive else set(
+            (a, ix) for (a, ix) in self.control_deps().get(p[0], set()) if a != p[0] and not self.block_dominates(p[0], a))
         res = []
         for (a, ix) in deps:
             blk = self.blocks[a]
